@@ -73,6 +73,10 @@ func AgeWithCtx(i int, ctx *Ctx) string { return ctx.Prefix + ext.IntToString(i)
 
 func ParseAge(s string) (int, error) { return ext.StringToInt(s) }
 
+func NoArg() int { return 42 }
+
+func NoArgString() string { return "x" }
+
 func NewOut() *Out { return &Out{Extra: 5} }
 
 func NewOutFrom(in *In) *Out { return &Out{Extra: in.ID} }
